@@ -646,7 +646,7 @@ fn check_str(r: jubako::Result<bool>) -> String {
 
 /// C04 observation: container check, file-level container-pack check, and the check of each
 /// pack of the damaged files cut out at its pristine span.
-fn observe_checks(entry: &Path, case_dir: &Path, names: &[String], spans: &[Vec<PackSpan>], touched: &[usize]) -> Value {
+fn observe_checks(entry: &Path, case_dir: &Path, names: &[String], spans: &[Vec<PackSpan>], touched: &[usize], extra: bool) -> Value {
     use jubako::Pack;
     let container = match jubako::reader::Container::new(entry) {
         Ok(c) => check_str(c.check()),
@@ -654,7 +654,9 @@ fn observe_checks(entry: &Path, case_dir: &Path, names: &[String], spans: &[Vec<
     };
     // the same question to a container that has been used first: every pack asked for, a content
     // of each read (what the container learnt while reading must not replace checking)
-    let container_used = match jubako::reader::Container::new(entry) {
+    let container_used = if !extra {
+        "not-asked".to_string()
+    } else { match jubako::reader::Container::new(entry) {
         Ok(c) => {
             for id in 0..=40u16 {
                 if let Ok(Some(jubako::reader::MayMissPack::FOUND(p))) = c.get_pack(jubako::PackId::from(id)) {
@@ -667,10 +669,12 @@ fn observe_checks(entry: &Path, case_dir: &Path, names: &[String], spans: &[Vec<
             check_str(c.check())
         }
         Err(e) => format!("OpenErr:{}", dump::err_class(&e)),
-    };
+    } };
     // and to a container whose process has no file descriptor left when the check runs (opening
     // a pack file then fails with EMFILE): the answer may be an error, not "all is well"
-    let container_no_fd = match jubako::reader::Container::new(entry) {
+    let container_no_fd = if !extra {
+        "not-asked".to_string()
+    } else { match jubako::reader::Container::new(entry) {
         Ok(c) => {
             let open_now = std::fs::read_dir("/proc/self/fd").map(|d| d.count() as u64).unwrap_or(64);
             let r = unsafe {
@@ -688,7 +692,7 @@ fn observe_checks(entry: &Path, case_dir: &Path, names: &[String], spans: &[Vec<
             check_str(r)
         }
         Err(e) => format!("OpenErr:{}", dump::err_class(&e)),
-    };
+    } };
     let mut file_checks = BTreeMap::new();
     let mut pack_checks = BTreeMap::new();
     for &fi in touched {
@@ -895,7 +899,7 @@ pub fn child_main(args: &Args) -> ! {
         write_files(&case_dir, &names, &files);
         let payload = std::panic::catch_unwind(std::panic::AssertUnwindSafe(|| match mode {
             Mode::C04 => {
-                let mut obs = observe_checks(&entry, &case_dir, &names, &spans, &fault.files());
+                let mut obs = observe_checks(&entry, &case_dir, &names, &spans, &fault.files(), i % 3 == 0);
                 let mut stale = serde_json::Map::new();
                 for (n, cp) in &held {
                     stale.insert(n.clone(), json!(check_str(cp.check())));
